@@ -20,7 +20,7 @@ from ..strictjson import typed_eq
 PID = 'C10'
 LEVEL = 'exploration'
 EXHAUSTIVE_OVERALL = False
-RULE = ('one case = one batch shape (2..4 elements, each with one of 11 profiles: call / notification / plain non-coroutine '
+RULE = ('one case = one batch shape (2..4 elements, each with one of 12 profiles: call / notification / plain non-coroutine '
         'method x succeeds / raises protocol error / raises arbitrary exception x 0..2 suspension points in method, middleware '
         '(before / after the inner handler) or error handler) x concurrent_batch on / off; for each shape ALL schedules '
         '(sequences of "which parked coroutine resumes next") are enumerated by stateless DFS re-execution of the real '
@@ -43,13 +43,13 @@ ANCHORS = [
 FLOORS = {'*': {'schedules': 12000, 'shapes': 1000, 'shapes-with>=2-completion-orders': 80, 'last-element-finishes-first': 50,
                 'max-in-flight>=2:concurrent': 200, 'sequential-mode-shapes': 60, 'points:method': 500, 'points:middleware': 500,
                 'points:error-handler': 200, 'profile:notification': 100, 'profile:plain-method': 100, 'profile:rpc-error': 100,
-                'profile:exception': 100, 'elements:4': 2, 'plain-callable-middleware': 100}}
+                'profile:exception': 100, 'profile:plain-method-raising-TypeError': 50, 'elements:4': 2, 'plain-callable-middleware': 100}}
 
 # (kind, outcome, points)
 PROFILES = [
     ('call', 'ok', []), ('call', 'ok', ['m0']), ('call', 'ok', ['m0', 'm1']), ('call', 'ok', ['mw-pre', 'mw-post']),
     ('call', 'rpc', ['m0', 'eh']), ('call', 'exc', ['eh']), ('notify', 'ok', ['m0']), ('notify', 'exc', ['mw-pre', 'eh']),
-    ('plain', 'ok', ['mw-post']), ('call', 'rpc', ['m0']), ('plain', 'ok', []),
+    ('plain', 'ok', ['mw-post']), ('call', 'rpc', ['m0']), ('plain', 'ok', []), ('plain', 'texc', ['eh']),
 ]
 
 CUR = {'sched': None, 'exec': [], 'points': {}}
@@ -115,7 +115,8 @@ def build(shape, concurrent, plain_mw=False):
             return ['res', tok]
         if what == 'rpc':
             raise JsonRpcError(code=rpc_code(tok), message=f'e{tok}', data=tok)
-        raise ValueError(f'Zq7_marker_{tok}')
+        # (a TypeError from inside the body is an ordinary failure of the method, not of the call)
+        raise (TypeError if (tok % 2 or what == 'texc') else ValueError)(f'Zq7_marker_{tok}')
 
     for i, p in enumerate(shape):
         kind, what, pts = PROFILES[p]
@@ -190,7 +191,9 @@ def run_shape(ctx, shape, concurrent, plain_mw=False):
             ctx.hit('profile:notification')
         if kind == 'plain':
             ctx.hit('profile:plain-method')
-        ctx.hit('profile:' + {'ok': 'ok', 'rpc': 'rpc-error', 'exc': 'exception'}[what])
+        ctx.hit('profile:' + {'ok': 'ok', 'rpc': 'rpc-error', 'exc': 'exception', 'texc': 'exception'}[what])
+        if kind == 'plain' and what == 'texc':
+            ctx.hit('profile:plain-method-raising-TypeError')
     shape_desc = [list(PROFILES[p]) for p in shape]
     limit = 60000
     with warnings.catch_warnings(record=True) as caught:
@@ -289,7 +292,7 @@ def gen(ctx):
     four = [list(s) for s in itertools.product(P, repeat=4)]
     if full:
         shapes += three + rng.sample(four, 2500)
-        light = [0, 1, 5, 6, 8, 9, 10]      # profiles with <= 1 suspension point
+        light = [0, 1, 5, 6, 8, 9, 10, 11]      # profiles with <= 1 suspension point
         shapes += [[rng.choice(light) for _ in range(5)] for _ in range(150)]
     else:
         shapes += three
